@@ -47,23 +47,32 @@ def r15_1(prog, rep):
     scales = [(n, v) for n, v in en["enumerators"]]
     if len(scales) != 11:
         raise AnalysisBroken("echs_scale_t has %d enumerators" % len(scales))
-    sites = []
-    for fname in ("echs_scale_ndim", "echs_scale_wday", "echs_instant_rescale"):
-        f = prog.fn(fname, "scale.c")
-        for b, on in _switches(f):
-            sites.append((f, b, on))
-    if len(sites) != 4:
-        raise AnalysisBroken("expected 4 switches over the scale, found %d" % len(sites))
+    # four dispatch roles: month length, weekday, source side (-> mjd) and target side (mjd ->) of the rescaler.  A role is
+    # (function, scale variable, class of conversion it selects); the dispatch itself may be a switch, an if-chain or a helper.
+    CLASS = {"__ndim_greg": "ndim", "__ndim_hij": "ndim", "__ndim_ht": "ndim", "__wday_greg": "wday", "__wday_hij": "wday", "__wday_ht": "wday",
+             "g2mjd": "to", "hij2mjd": "to", "ht2mjd": "to", "mjd2g": "from", "mjd2hij": "from", "mjd2ht": "from"}
+    roles = [("echs_scale_ndim", "ndim"), ("echs_scale_wday", "wday"), ("echs_instant_rescale", "to"), ("echs_instant_rescale", "from")]
     sig = {}
-    for f, sw, on in sites:
+    nroles = 0
+    for fname, cls in roles:
+        f = prog.fn(fname, "scale.c")
         cfg = f.cfg
-        role = "%s/switch(%s)" % (f.name, on)
-        for name, val in scales:
+        svars = [p_["n"] for p_ in f.params if p_.get("t") == "echs_scale_t"] + [l_["n"] for l_ in f.locals if "echs_scale_t" in (l_.get("t") or "")]
+        # calls that are the whole initialiser of a scale variable: their result *is* the variable
+        initcalls = {}
+        for b_, i_, x_, ln_ in cfg.all_elems():
+            for l_, kind_, n_ in writes(x_):
+                if kind_ == "decl" and lv(l_) in svars and n_.get("init") is not None:
+                    ini = strip_casts(cfg.resolve(n_["init"]))
+                    if ini.get("k") == "call":
+                        initcalls[(ini.get("fn"), ini.get("line"))] = lv(l_)
+
+        def collect(var, val):
             got = []
 
             def effect(b, i, x, store, _got=got):
                 for c in calls(x):
-                    if c.get("fn") in FAMILY:
+                    if CLASS.get(c.get("fn")) == cls:
                         args = []
                         for a in c["a"]:
                             ar = strip_casts(cfg.resolve(a))
@@ -75,24 +84,38 @@ def r15_1(prog, rep):
                                 from ..absw import eval_in
                                 v = eval_in(store, ar, f)
                             args.append(v if v is not None else show(ar))
-                        _got.append((c["fn"], args))
+                        if (c["fn"], args) not in _got:
+                            _got.append((c["fn"], args))
                 return None
-            # walk only the switch statement: stop where control leaves the blocks dominated by the switch
-            dominated = {b for b in cfg.blocks if cfg.dominates(sw, b)}
-            join = set()
-            for b in dominated:
-                for s in cfg.blocks[b].live_succs():
-                    # the statement after the switch: reached from several case arms
-                    if s in dominated and len([p for p in cfg.lpreds[s] if p in dominated]) > 2:
-                        join.add(s)
-            AbsWalk(f, {on}, init={on: val}, effect=effect).run(start_block=sw, stop_at=join | (set(cfg.blocks) - dominated))
+
+            def call_eval(c, store):
+                if initcalls.get((c.get("fn"), c.get("line"))) == var:
+                    return val
+                return None
+            AbsWalk(f, {var}, init={var: val}, effect=effect, call_eval=call_eval).run()
+            return got
+        # the scale variable of this role: the one that selects a single conversion for most scales
+        best = None
+        for var in svars:
+            per = {name: collect(var, val) for name, val in scales}
+            score = sum(1 for g in per.values() if len(g) == 1)
+            if best is None or score > best[1]:
+                best = (var, score, per)
+        if best is None or best[1] < 6:
+            raise AnalysisBroken("%s: no scale variable selects the %s conversions (best %s)" % (fname, cls, best and best[:2]))
+        nroles += 1
+        var, _, per = best
+        role = "%s/%s(%s)" % (f.name, cls, var)
+        for name, val in scales:
+            got = per[name]
             key = "%s/%s" % (role, name)
-            fams = {FAMILY[g[0]] for g in got}
             if len(got) != 1:
                 rep.fail(rid, key, f.loc(), "%s handles %s with %s (expected exactly one conversion of one calendar family)" % (role, name, [g[0] for g in got] or "nothing"))
                 continue
             sig.setdefault(name, []).append((role, got[0]))
             rep.ok(rid, key, f.loc(), "%s -> %s(%s)" % (name, got[0][0], ", ".join(map(str, got[0][1]))), nontrivial=True)
+    if nroles != 4:
+        raise AnalysisBroken("expected 4 dispatch roles over the scale, found %d" % nroles)
     # agreement across the four arms
     for name, val in scales:
         arms = sig.get(name, [])
